@@ -500,7 +500,17 @@ func (e *Env) Close() {
 		return
 	}
 	e.closed = true
-	e.TM.Close()
+	// bounded: a TaskMaster whose tasks never end (a defect some cases provoke) must not wedge
+	// the process until the test deadline; Case.End turns a hang of an otherwise passing case
+	// into a failure
+	done := make(chan struct{})
+	go func() { e.TM.Close(); close(done) }()
+	select {
+	case <-done:
+	case <-time.After(CloseBound):
+		atomic.AddInt64(&HungCloses, 1)
+		return
+	}
 	if e.Alert != nil {
 		e.Alert.Close()
 	}
@@ -511,6 +521,12 @@ func (e *Env) Close() {
 		os.RemoveAll(e.Dir)
 	}
 }
+
+// CloseBound is how long Env.Close waits for TaskMaster.Close; HungCloses counts the times it did not return.
+var (
+	CloseBound = 20 * time.Second
+	HungCloses int64
+)
 
 var DefaultDBRP = []kapacitor.DBRP{{Database: "db", RetentionPolicy: "rp"}}
 
